@@ -281,3 +281,44 @@ impl LinearCodePCS {
             }
 //@end
 }
+// ---------------- completeness of the linear-code schemes for ONE polynomial, relative to stated hypotheses on the (external) encoder and tensor maps ----------------
+pub open spec fn vec_mat(r: Seq<FS>, m: &Matrix) -> Seq<FS> { Seq::new(m.m as nat, |c: int| ip(r, mat_col(m, c))) }
+// HYPOTHESIS on the encoder (uninterpreted `encode_spec`, = LinearEncode::encode, external / not under contract): it has the declared output length and is linear,
+// and the extended matrix holds the encodings of the rows of the coefficient matrix - in one clause: the encoding of a combination r of the rows, at position q,
+// is the same combination of column q of the extended matrix
+pub open spec fn enc_linear(vk: &Params, mat: &Matrix, ext: &Matrix) -> bool {
+    forall|r: Seq<FS>| r.len() == mat.n ==> (#[trigger] encode_spec(vec_mat(r, mat), vk)).len() == ext.m
+        && forall|q: int| 0 <= q < ext.m ==> encode_spec(vec_mat(r, mat), vk)[q] == ip(r, mat_col(ext, q))
+}
+//@lemma props=C01
+// what `open` puts into the i-th proof (lc_honest_one: its postcondition) for a state that belongs to the commitment, with a linear encoder, satisfies everything `check`
+// establishes before accepting (lc_accepts_one: the conclusion of its postcondition) - for the claimed value <v, a> (the tensor identity p(z) = b M a is NOT under contract)
+pub proof fn lemma_lincode_complete_one(s: SS, vk: &Params, com: &LinCodePCCommitment, st: &LinCodePCCommitmentState, pr: &LinCodePCProof, z: &Pt)
+    requires
+        state_matches(com, st), lc_honest_one(s, vk, com, st, pr, z), enc_linear(vk, &st.mat, &st.ext_mat), lc_t(vk, com) >= 0,
+        tensor_b(z, com.metadata.n_cols as nat, com.metadata.n_rows as nat).len() == st.mat.n,
+    ensures
+        lc_accepts_one(s, vk, com, ip(fviews(pr.opening.v@), tensor_a(z, com.metadata.n_cols as nat, com.metadata.n_rows as nat)), pr, z)
+{
+    reveal(lc_honest_one); reveal(lc_accepts_one);
+    let t = lc_t(vk, com); let pv = point_vec_spec(*z);
+    let b = tensor_b(z, com.metadata.n_cols as nat, com.metadata.n_rows as nat);
+    let v = fviews(pr.opening.v@);
+    assert(v =~= vec_mat(b, &st.mat));
+    let w = encode_spec(v, vk);
+    assert(w.len() == st.ext_mat.m);
+    assert forall|j: int| 0 <= j < t implies (#[trigger] lc_index(s, vk, com, pr, pv, j as nat)) < w.len()
+        && ip(b, fviews(pr.opening.columns@[j]@)) == w[lc_index(s, vk, com, pr, pv, j as nat) as int] by {
+        let q = lc_index(s, vk, com, pr, pv, j as nat) as int;
+        assert(fviews(pr.opening.columns@[j]@) == mat_col(&st.ext_mat, q));
+    }
+    if vk.wf {
+        let r = sqn_seq(lc_pre_wf(s, com), com.metadata.n_rows as nat);
+        let wfv = fviews(pr.well_formedness->Some_0@);
+        assert(wfv =~= vec_mat(r, &st.mat));
+        assert forall|j: int| 0 <= j < t implies ip(r, fviews(pr.opening.columns@[j]@)) == encode_spec(wfv, vk)[(#[trigger] lc_index(s, vk, com, pr, pv, j as nat)) as int] by {
+            let q = lc_index(s, vk, com, pr, pv, j as nat) as int;
+            assert(fviews(pr.opening.columns@[j]@) == mat_col(&st.ext_mat, q));
+        }
+    }
+}
